@@ -27,14 +27,15 @@ type Engine struct {
 	globals   map[*ssa.Global]int
 	nextState int
 
-	ConcCap    int
-	IteLoadMax int64
-	StepBudget int
-	MaxPaths   int
-	AllocMax   func(n int64) int64
-	Params     map[string]int64
-	Verbose    int
-	Deadline   time.Time
+	ConcCap     int
+	IteLoadMax  int64
+	StepBudget  int
+	PathTimeout time.Duration
+	MaxPaths    int
+	AllocMax    func(n int64) int64
+	Params      map[string]int64
+	Verbose     int
+	Deadline    time.Time
 
 	intr      map[string]Intrinsic
 	intrCache map[*ssa.Function]Intrinsic
@@ -55,6 +56,8 @@ type Engine struct {
 	InitAllow  func(pkgPath string) int // 0 = skip+poison globals, 1 = run init, 2 = skip, globals stay zero
 	Samples    []PathSample
 	stopReason string
+	abort      string
+	aborted    string
 	replayVec  []uint64 // concrete-mode nondet vector (nil = symbolic)
 	replayPos  int
 	Concrete   bool
@@ -220,6 +223,10 @@ func (e *Engine) Run(fn *ssa.Function, onPath func(PathResult)) {
 			e.stopReason = "max paths"
 			break
 		}
+		if e.abort != "" {
+			e.aborted = e.abort
+			break
+		}
 		if !e.Deadline.IsZero() && time.Now().After(e.Deadline) {
 			e.stopReason = "deadline"
 			break
@@ -304,6 +311,13 @@ func (e *Engine) runSteps(st *State, concrete bool) (done bool, out Outcome) {
 		}
 		if st.steps >= e.StepBudget {
 			return true, Outcome{Kind: OutUnwind, Label: fmt.Sprintf("step budget %d exhausted", e.StepBudget), Site: st.site(), Stack: st.stack()}
+		}
+		if e.PathTimeout > 0 && st.steps&15 == 0 {
+			if st.started.IsZero() {
+				st.started = time.Now()
+			} else if time.Since(st.started) > e.PathTimeout {
+				return true, Outcome{Kind: OutUnwind, Label: fmt.Sprintf("path wall-clock budget %v exhausted after %d steps", e.PathTimeout, st.steps), Site: st.site(), Stack: st.stack()}
+			}
 		}
 		st.steps++
 		if e.Verbose > 1 {
@@ -678,3 +692,10 @@ func bitsOn(v uint64) int {
 	}
 	return n
 }
+
+// Abort stops the exploration after the current path (used once a non-termination finding makes
+// further exploration of the same harness pointless).
+func (e *Engine) Abort(why string) { e.abort = why }
+
+// Aborted reports why the exploration was cut short by Abort ("" if it was not).
+func (e *Engine) Aborted() string { return e.aborted }
